@@ -29,6 +29,18 @@ Fixpoint er_e (e : mexpr) : mexpr :=
   | MStar _ e => MStar P0 (er_e e)
   | MTemp _ => MTemp P0
   | MLambda _ args _ _ body => MLambda P0 (map er_arg args) P0 P0 (er_e body)
+  | MEllipsis _ => MEllipsis P0
+  | MYield _ e => MYield P0 (option_map er_e e)
+  | MYieldFrom _ e => MYieldFrom P0 (er_e e)
+  | MAwait _ e => MAwait P0 (er_e e)
+  | MAssignExpr _ t v => MAssignExpr P0 (er_e t) (er_e v)
+  | MBytes _ s => MBytes P0 s
+  | MFloat _ b => MFloat P0 b
+  | MComplex _ a b => MComplex P0 a b
+  | MGenerator _ l i s c a => MGenerator P0 (er_e l) (map er_e i) (map er_e s) (map (map er_e) c) a
+  | MListComp _ g => MListComp P0 (er_e g)
+  | MSetComp _ g => MSetComp P0 (er_e g)
+  | MDictComp _ k v i s c a => MDictComp P0 (er_e k) (er_e v) (map er_e i) (map er_e s) (map (map er_e) c) a
   end
 with er_arg (a : marg) : marg :=
   match a with MArg _ _ n k i po => MArg P0 P0 n k (option_map er_e i) po end.
@@ -153,6 +165,11 @@ Fixpoint ok_e (e : expr) : Prop :=
   | EDict _ it => ok_ditems it
   | ESlice _ a b c => ok_oe a /\ ok_oe b /\ ok_oe c
   | ELambda _ ps b => ok_params ps /\ ok_e b
+  | EConst _ _ | EEllipsis _ | EBytes _ _ | EFloat _ _ | EComplex _ _ _ => True
+  | EYield _ v => ok_oe v
+  | EYieldFrom _ e | EAwait _ e | EWalrus _ _ _ e => ok_e e
+  | EComp _ _ elt g => ok_e elt /\ ok_gens g
+  | EDictComp _ ky v g => ok_e ky /\ ok_e v /\ ok_gens g
   end
 with ok_es (es : exprs) : Prop := match es with ENil => True | ECons e es' => ok_e e /\ ok_es es' end
 with ok_args (a : args) : Prop := match a with ANil => True | ACons _ e a' => ok_e e /\ ok_args a' end
@@ -161,7 +178,8 @@ with ok_oe (o : oexpr) : Prop := match o with ONone => True | OSome e => ok_e e 
 with ok_ditems (d : ditems) : Prop := match d with DNil => True | DCons k v r => ok_oe k /\ ok_e v /\ ok_ditems r end
 (* the only non-positional difference of the fragment: `__x` as a keyword-only / star parameter *)
 with ok_params (ps : params) : Prop :=
-  match ps with PNil => True | PCons _ _ n k d r => emit_pos_only k n = param_pos_only k n /\ ok_oe d /\ ok_params r end.
+  match ps with PNil => True | PCons _ _ n k d r => emit_pos_only k n = param_pos_only k n /\ ok_oe d /\ ok_params r end
+with ok_gens (g : gens) : Prop := match g with GNil => True | GCons t i c r => ok_e t /\ ok_e i /\ ok_es c /\ ok_gens r end.
 
 Definition Se (e : expr) := ok_e e -> er_e (nconv_e e) = er_e (conv_e e).
 Definition Ses (es : exprs) := ok_es es -> map er_e (nconv_es es) = map er_e (conv_es es).
@@ -172,15 +190,18 @@ Definition Sditems (d : ditems) := ok_ditems d ->
   map (fun kv => (option_map er_e (fst kv), er_e (snd kv))) (combine (nconv_dkeys d) (nconv_dvals d)) =
   map (fun kv => (option_map er_e (fst kv), er_e (snd kv))) (conv_ditems d).
 Definition Sparams (ps : params) := ok_params ps -> map er_arg (nconv_params ps) = map er_arg (conv_params ps).
+Definition Sgens (g : gens) := ok_gens g ->
+  map er_e (nconv_gtargets g) = map er_e (conv_gtargets g) /\ map er_e (nconv_giters g) = map er_e (conv_giters g) /\
+  map (map er_e) (nconv_gifs g) = map (map er_e) (conv_gifs g).
 
 Lemma shape_e_all :
   (forall e, Se e) /\ (forall es, Ses es) /\ (forall a, Sargs a) /\ (forall c, Scmps c) /\ (forall o, Soe o) /\
-  (forall d, Sditems d) /\ (forall ps, Sparams ps).
+  (forall d, Sditems d) /\ (forall ps, Sparams ps) /\ (forall g, Sgens g).
 Proof.
-  apply expr_all_mut; unfold Se, Ses, Sargs, Scmps, Soe, Sditems, Sparams; intros;
-    cbn [ok_e ok_es ok_args ok_cmps ok_oe ok_ditems ok_params] in *;
-    cbn [nconv_e nconv_es nconv_args nconv_cmps nconv_oe nconv_dkeys nconv_dvals nconv_params
-         conv_e conv_es conv_args conv_cmps conv_oe conv_ditems conv_params combine map option_map];
+  apply expr_all_mut; unfold Se, Ses, Sargs, Scmps, Soe, Sditems, Sparams, Sgens; intros;
+    cbn [ok_e ok_es ok_args ok_cmps ok_oe ok_ditems ok_params ok_gens] in *;
+    cbn [nconv_e nconv_es nconv_args nconv_cmps nconv_oe nconv_dkeys nconv_dvals nconv_params nconv_gtargets nconv_giters nconv_gifs
+         conv_e conv_es conv_args conv_cmps conv_oe conv_ditems conv_params conv_gtargets conv_giters conv_gifs combine map option_map];
     try reflexivity.
   - (* EAttr *) rewrite !er_mk_member, H by auto. reflexivity.
   - (* ECall *) destruct H1. cbn [er_e]. rewrite H, H0 by auto. reflexivity.
@@ -197,18 +218,26 @@ Proof.
   - (* ESlice *) destruct H2 as [A [B C]]. cbn [er_e]. rewrite H, H0, H1 by auto. reflexivity.
   - (* EStar *) cbn [er_e]. rewrite H by auto. reflexivity.
   - (* ELambda *) destruct H1. cbn [er_e]. rewrite H, H0 by auto. reflexivity.
+  - (* EComp *) destruct H1 as [A B]. destruct (H0 B) as [X [Y Z]]. cbv zeta. destruct k; cbn [er_e]; rewrite H, X, Y, Z by auto; reflexivity.
+  - (* EDictComp *) destruct H2 as [A [B C]]. destruct (H1 C) as [X [Y Z]]. cbn [er_e]. rewrite H, H0, X, Y, Z by auto. reflexivity.
+  - (* EYield *) cbn [er_e]. rewrite H by auto. reflexivity.
+  - (* EYieldFrom *) cbn [er_e]. rewrite H by auto. reflexivity.
+  - (* EAwait *) cbn [er_e]. rewrite H by auto. reflexivity.
+  - (* EWalrus *) cbn [er_e]. rewrite H by auto. reflexivity.
   - (* ECons *) destruct H1. rewrite H, H0 by auto. reflexivity.
   - destruct H1. rewrite H, H0 by auto. reflexivity.
   - destruct H1. rewrite H, H0 by auto. reflexivity.
   - (* OSome *) rewrite H by auto. reflexivity.
   - (* DCons *) destruct H2 as [A [B C]]. cbn [fst snd]. rewrite H1 by auto. f_equal. f_equal; auto.
   - (* PCons *) destruct H1 as [Hpo [Hd Hr]]. cbn [er_arg]. rewrite H, H0, Hpo by auto. reflexivity.
+  - (* GNil *) repeat split.
+  - (* GCons *) destruct H3 as [A [B [C D]]]. destruct (H2 D) as [X [Y Z]]. rewrite H, H0, H1, X, Y, Z by auto. repeat split.
 Qed.
 
 Definition shape_e := proj1 shape_e_all.
 Definition shape_es := proj1 (proj2 shape_e_all).
 Definition shape_oe := proj1 (proj2 (proj2 (proj2 (proj2 shape_e_all)))).
-Definition shape_params := proj2 (proj2 (proj2 (proj2 (proj2 (proj2 shape_e_all))))).
+Definition shape_params := proj1 (proj2 (proj2 (proj2 (proj2 (proj2 (proj2 shape_e_all)))))).
 
 Lemma shape_ty_all :
   (forall t line, er_ty (nconv_ty t) = er_ty (conv_ty line t)) /\
